@@ -165,8 +165,43 @@ func (e *Engine) VerifyFunctionAs(fn *ssa.Function, c *Contract, panics bool, pr
 	if c.HasMod {
 		r.frameObligations(fin, st, env)
 	}
-	if len(c.Emits) > 0 {
-		// a function with emits must not itself be checked for them: events are recorded by callers
+	if len(c.Emits) > 0 && ifaceKey == "" {
+		hasTrace := false
+		for _, cl := range c.Ensures {
+			if isTraceClause(cl.E) {
+				hasTrace = true
+			}
+		}
+		if hasTrace {
+			// the summary events callers record for this function must be exactly its own activation trace
+			shadow := fin.Clone()
+			shadow.Ghost["trace.len"] = tb.BVI(64, 0)
+			for _, n := range []string{"kind", "a", "b", "c", "d"} {
+				delete(shadow.Ghost, "trace."+n)
+				shadow.Ghost["trace."+n] = tb.Var("G0:emits."+n, WordAr)
+			}
+			envS := env2.child()
+			envS.cur = shadow
+			envF := env2.child()
+			envF.cur = fin
+			for _, em := range c.Emits {
+				r.emitEvent(shadow, envF, em.E)
+			}
+			var conj []*Term
+			conj = append(conj, tb.Eq(r.e.ghost(fin, "trace.len", BV64), shadow.Ghost["trace.len"]))
+			nEm := len(c.Emits)
+			for i := 0; i < nEm; i++ {
+				k := tb.BVI(64, int64(i))
+				for _, n := range []string{"kind", "a", "b", "c", "d"} {
+					sa := shadow.Ghost["trace."+n]
+					if sa.Op != "store" {
+						continue // slot never written by the declared events
+					}
+					conj = append(conj, tb.Eq(tb.Select(r.e.ghost(fin, "trace."+n, WordAr), k), tb.Select(sa, k)))
+				}
+			}
+			r.oblige(fin, "emits", "", tb.And(conj...), fn.Pos(), "declared emits equal the function's own activation trace", nil)
+		}
 	}
 	return res
 }
